@@ -17,6 +17,7 @@ EXPLANATION = (
     "A^T + S)^-1 A K (explicit adjugate inverses); mean == m + Sigma A^T S^-1 (y - A m); mean-only path agrees; Sigma "
     "symmetric, PSD and K - Sigma PSD (diagonals and 2x2 determinants >= 0); evidence == -1/2 r^T J^-1 r - 1/2 log det "
     "J with J = A K A^T + S, r = y - A m; evidence gradient == symbolic derivative, same value."
+    ' Call-sequence unit: posterior, the caller overwrites entries of the same hyper-parameter array in place, posterior / mean-only path again; every answer is the closed form for the values current at the time of the call.'
 )
 BOUNDS = {"quick": "<=2 parameters, <=2 data (shapes 1x2, 2x1, 2x2)", "thorough": "adds 3 data x 2 parameters (posterior identities) and the 2x2 evidence gradient; 3 parameters are outside reach (normal forms of 3x3 adjugate inverses did not finish in 20 min)"}
 ASSUMPTIONS = [
@@ -219,3 +220,36 @@ def evidence_gradient_is_derivative(h, m, p):
     v, g = inv.marginal_likelihood_gradient(th)
     h.eq("value-and-gradient variant returns the same value", v, inv.marginal_likelihood(th))
     h.is_gradient("marginal_likelihood_gradient == d value / d theta", lambda t: inv.marginal_likelihood(t), th, g)
+
+
+@unit("C17", quick=[dict(m=2, p=1), dict(m=1, p=2)], cost=5, timeout_ms=60000, families=1)
+def repeated_calls_follow_the_current_hyperparameters(h, m, p):
+    """a call sequence on one inverter: posterior at theta, the caller overwrites entries of the same array in place,
+    posterior / mean-only path / evidence again.  Every answer must be the closed form for the values the array holds at
+    the time of the call (the prior kernel and mean are uninterpreted functions of theta, so a stale factor shows)"""
+    iv, inv, A, y, e, th, K, mu0, pm = _setup(h, m, p, theta_dep=True)
+    dt = object if h.sym else float
+    Sinv, S = np.diag(1 / e ** 2), np.diag(e ** 2)
+
+    def closed_form(t):
+        Km = inv.cov.build_covariance(t[pm:])
+        m0 = inv.mean.build_mean(t[:pm])
+        J = A @ Km @ A.T + S
+        cov = Km - Km @ A.T @ _inv(h, J) @ A @ Km
+        return m0 + cov @ (A.T @ (Sinv @ (y - A @ m0))), cov
+    t = np.array(th, dtype=dt)
+    mean, cov = inv.calculate_posterior(t)
+    rm, rc = closed_form(t)
+    h.eq("first call: mean", mean, rm)
+    h.eq("first call: covariance", cov, rc)
+    new = h.real("th_new", len(t))
+    for k in range(len(t)):
+        t[k] = new[k]                      # in place: same array object, new values
+        mean, cov = inv.calculate_posterior(t)
+        rm, rc = closed_form(t)
+        h.eq(f"after overwriting theta[{k}] in place: mean", mean, rm)
+        h.eq(f"after overwriting theta[{k}] in place: covariance", cov, rc)
+        h.eq(f"after overwriting theta[{k}] in place: mean-only path", inv.calculate_posterior_mean(t), rm)
+    t2 = np.array(th, dtype=dt)            # back to the first values through a fresh array
+    h.eq("fresh array with the first values: mean-only path", inv.calculate_posterior_mean(t2), closed_form(t2)[0])
+    h.eq("fresh array with the first values: covariance", inv.calculate_posterior(t2)[1], closed_form(t2)[1])
